@@ -114,7 +114,7 @@ func genC01(t *rapid.T) c01Case {
 	nrec := 0
 	switch c.Mode {
 	case "real":
-		c.Shape = gen.DrawShape(t, gen.ShapeOpts{})
+		c.Shape = gen.DrawShape(t, gen.ShapeOpts{AllowReplaceQuotes: true})
 		c.Recs = gen.DrawRecs(t, c.Shape, "r", 0, 8, gen.ValueOpts{})
 		base := c.Shape.Render(c.Recs)
 		if rapid.IntRange(0, 2).Draw(t, "malformedInput") > 0 {
@@ -227,6 +227,10 @@ func checkC01(c c01Case) obs.Result {
 	var lastErr error
 	var lastBytes []byte
 	readsAfterTerminal, rawAfterFail := 0, 0
+	// every slice handed out is kept (not copied) together with a copy: a slice "representing one ingested and
+	// transformed record" must still represent it after later Reads (no shared, reused output buffer)
+	type kept struct{ live, copy []byte }
+	var handedOut []kept
 	terminalNonEOF := false
 	hist := []string{}
 	doRead := func() string {
@@ -248,6 +252,7 @@ func checkC01(c c01Case) obs.Result {
 				return fmt.Sprintf("Read returned bytes that are not valid UTF-8 JSON: %q", b)
 			}
 			state, lastErr, lastBytes = stOK, nil, b
+			handedOut = append(handedOut, kept{live: b, copy: append([]byte{}, b...)})
 		case errs.IsErrTransformFailed(err):
 			if b != nil {
 				return fmt.Sprintf("Read returned bytes %q together with a per-record failure %v", b, err)
@@ -322,6 +327,11 @@ func checkC01(c c01Case) obs.Result {
 				tail = tail[len(tail)-8:]
 			}
 			return obs.Violationf("op %d: %s\nhistory tail: %v", i, msg, tail)
+		}
+	}
+	for i, k := range handedOut {
+		if !bytes.Equal(k.live, k.copy) {
+			return obs.Violationf("the bytes returned by successful Read #%d were modified by later calls: returned %q, now %q", i+1, k.copy, k.live)
 		}
 	}
 	obs.Count("reads_after_terminal", readsAfterTerminal)
